@@ -234,6 +234,13 @@ func checkC09(e *Env) {
 			}
 		}
 	})
+	// "given a working source": a source that stays installed, failed during an earlier call and
+	// works during this one is a working source
+	transientCalls := e.transientHistories(drv, "C09", e.pick(40, 600), func(c *transientCall) {
+		if why := c.workingSourceVerdict(); why != "" && c.res.Err != nil {
+			e.Violate(&Violation{What: "accepted word count with a source that works during the call: " + why, Ops: c.ops[:c.i+1], Observed: c.res, Detail: historyNote})
+		}
+	})
 	var al []int
 	for l := range acceptedLens {
 		al = append(al, l)
@@ -248,9 +255,10 @@ func checkC09(e *Env) {
 		fatalInconclusive("C09: accepted sets are %v and %v", al, ac)
 	}
 	e.WriteEvidence("exploration", map[string]any{
-		"evaluations":              stats.Ops,
-		"distinct_nontrivial":      dist.Len(),
-		"calls_inside_histories":   histCalls,
+		"evaluations":            stats.Ops,
+		"distinct_nontrivial":    dist.Len(),
+		"calls_inside_histories": histCalls,
+		"calls_on_a_source_that_fails_transiently_and_stays_installed": transientCalls,
 		"rule":                     "cases: NewMnemonicByEntropy with nil and every slice length 0..2048 (thorough 0..8192), lengths congruent to valid ones modulo 2^8 and 2^16, and sizes up to 1 MiB (thorough 16 MiB) over supported and unsupported languages; NewMnemonic with every int in [-1500,1500] (thorough [-20000,20000]), windows of +-30 around MinInt64, MinInt32, +-2^31, MaxInt32, 2^32, 2^62, MaxInt64, and values congruent to valid counts modulo 2^8/2^16/2^32 (truncation mutants), each with a working scripted source, a failing scripted source and the default source (observed through the crypto/rand interposer); non-trivial = every case (the required outcome is fully determined); distinct by (function, size or count, language, source)",
 		"samples":                  smp.List(),
 		"entropy_lengths_tried":    len(lensTried),
